@@ -110,7 +110,9 @@ def judge(recs, max_workers=8):
                 if not imported.get((r["dir"], r["keyfile"]), False):
                     continue
                 accepted = rc == 0 and "GOODSIG" in st and "VALIDSIG" in st
-                judged = bool(r.get("judge")) and r.get("hash") in GPG_HASHES
+                # gpg enforces the minimum hash size of RFC 6637 12.2.1 / FIPS 186-3 for ECDSA/DSA keys: outside that
+                # profile its refusal says nothing about the signature
+                judged = bool(r.get("judge")) and r.get("hash") in GPG_HASHES and int(r.get("hash_bits", 0)) >= int(r.get("min_hash_bits", 0))
                 k = "%s/%s/%s" % (r.get("pkalgo"), r.get("hash"), r.get("type"))
                 by[k] = by.get(k, 0) + 1
                 if accepted:
